@@ -3,14 +3,15 @@ Driver for C10.  One request per line, `k=v` fields separated by single spaces:
   op=ctor  T=<xsd type> V=<10|11|none> S=<code points, comma separated, `_` = empty>
   op=valid T=<xsd type> S=<…>
   op=canon T=<integer type|decimal|boolean> (I=<int> | S=<lexical form> | B=<0|1>)
-  op=dstr  R=<repr(float) as code points>                 (double -> string, finding F10b)
   op=hexenc|b64enc Y=<octets, comma separated, `_` = empty>
   op=hex2b64|b642hex S=<stored value>
-  op=cast  K=<source kind> … see `castAnswer`
+  op=cast  V=<10|11> K=<str|untyped|bool|int|dec|dbl> (S=<cps> | B=<0|1> | I=<int> | X=<nan|inf|-inf|neg:n:k> R=<repr cps>)
+           T=<string|untypedAtomic|boolean|decimal|double|float|integer type>
 Answer: `model=<raw model result> modelN=<model result, value normalised> spec=<spec result> inK=<flags>`
 flags: `w` the string contains a character that Python treats as white space but XSD does not
        `v` the string is not in whitespace-normal form (s ≠ wsCollapse s)
-       `d` (op=dstr) the double lies where Python's repr and the F&O canonical form differ
+       `d` (op=cast, double -> string) the double lies where string_value and the F&O canonical form differ (F10b)
+       `o` (op=cast, integer -> double) the integer is too large for float(int) (F10o)
 -/
 import EPV.Proto
 import EPV.Model.Lexical
@@ -142,6 +143,112 @@ def canonAnswer (t : String) (fs : List (String × String)) : String :=
     out (toString b) (toString b) (if b then "true" else "false") ""
   else "bad-type"
 
+/-! ### casting corner -/
+
+/-- reading of CPython's `repr(float)` for a finite double: sign, shortest digits (no leading / trailing
+zeros; `[]` for zero) and decimal exponent `e` with value = d₁.d₂… × 10^e.  Trusted glue (the digits
+themselves are CPython's). -/
+def parseRepr (r : List Char) : Option (Bool × List Char × Int) :=
+  let (neg, body) := match r with | '-' :: t => (true, t) | t => (false, t)
+  let (mant, ex) := match XSD.splitAt (fun c => c == 'e' || c == 'E') body with
+    | (m, some x) => (m, (String.ofList (match x with | '+' :: y => y | y => y)).toInt?)
+    | (m, none) => (m, some 0)
+  match ex with
+  | none => none
+  | some x =>
+    let (ip, fp) := match XSD.splitAt (· == '.') mant with
+      | (a, some f) => (a, f)
+      | (a, none) => (a, [])
+    if !(ip ++ fp).all XSD.isDigit || ip.isEmpty then none else
+    let all := ip ++ fp
+    let lead := (all.takeWhile (· == '0')).length
+    let ds := ((all.dropWhile (· == '0')).reverse.dropWhile (· == '0')).reverse
+    if ds.isEmpty then some (neg, [], 0)
+    else some (neg, ds, (ip.length : Int) - 1 - lead + x)
+
+def parseDbl (x : String) : Option Lex.Dbl :=
+  if x == "nan" then some .nan else if x == "inf" then some .pinf else if x == "-inf" then some .ninf else
+  match x.splitOn ":" with
+  | [a, b, c] => do
+    let n ← nat? b; let k ← nat? c
+    pure (.fin (a == "1") n k)
+  | _ => none
+
+def showCVal : Lex.CVal → String
+  | .str s => "ok:str:" ++ showCPs s
+  | .untyped s => "ok:untyped:" ++ showCPs s
+  | .bool b => s!"ok:bool:{b}"
+  | .int v => s!"ok:int:{v}"
+  | .dec neg c k => s!"ok:dec:{if neg then 1 else 0}:{c}:{k}"
+  | .dbl c => "ok:dbl:" ++ (match c with | .nan => "nan" | .pinf => "inf" | .ninf => "-inf" | .num => "num")
+
+def showCErr : Lex.CErr → String
+  | .FORG0001 => "ERR:FORG0001" | .FOCA0002 => "ERR:FOCA0002" | .XPTY0004 => "ERR:XPTY0004"
+
+def showSVal : XSD.SVal → String
+  | .str s => "ok:str:" ++ showCPs s
+  | .untyped s => "ok:untyped:" ++ showCPs s
+  | .bool b => s!"ok:bool:{b}"
+  | .int v => s!"ok:int:{v}"
+  | .dec v => let w := v.norm; s!"ok:dec:{w.num}:{w.scale}"
+  | .dbl c => "ok:dbl:" ++ (match c with | .nan => "nan" | .pinf => "inf" | .ninf => "-inf" | .num => "num")
+
+/-- model result with the decimal normalised like the spec prints it -/
+def showCValN : Lex.CVal → String
+  | .dec neg c k => showSVal (.dec ⟨if neg then -(c : Int) else c, k⟩)
+  | v => showCVal v
+
+def castAnswer (fs : List (String × String)) : String :=
+  let ver : Lex.Ver := match field fs "V" with | "10" => .v10 | "11" => .v11 | _ => .none
+  let tname := field fs "T"
+  let target : Option (Lex.Target × XSD.SType) :=
+    if tname == "string" then some (.string, .string)
+    else if tname == "untypedAtomic" then some (.untypedAtomic, .untypedAtomic)
+    else if tname == "boolean" then some (.boolean, .boolean)
+    else if tname == "decimal" then some (.decimal, .decimal)
+    else if tname == "double" then some (.double, .double (ver != .v10))
+    else if tname == "float" then some (.float, .double (ver != .v10))
+    else match Lex.boundsOf tname, specFacets tname with
+      | some b, some (lo, hi) => some (.integer b, .integer lo hi)
+      | _, _ => none
+  let kind := field fs "K"
+  let src : Option (Lex.Atom × XSD.SAtom × String) :=
+    if kind == "str" then (parseCPs (field fs "S")).map fun s => (.str s, .str s, flags s)
+    else if kind == "untyped" then (parseCPs (field fs "S")).map fun s => (.untyped s, .untyped s, flags s)
+    else if kind == "bool" then some (.bool (field fs "B" == "1"), .bool (field fs "B" == "1"), "")
+    else if kind == "int" then (int? (field fs "I")).map fun v =>
+      (.int v, .int v, if (tname == "double" || tname == "float") && v.natAbs ≥ 2 ^ 1024 - 2 ^ 970 then "o" else "")
+    else if kind == "dec" then
+      (parseCPs (field fs "S")).bind fun s =>
+        match Lex.decCtor s with
+        | .ok d => some (.dec d, .dec (XSD.decimalVal (XSD.wsCollapse s)), "")
+        | .error _ => none
+    else if kind == "dbl" then
+      match parseDbl (field fs "X"), parseCPs (field fs "R") with
+      | some x, some r =>
+        let sx : XSD.SDbl := match x with
+          | .nan => .nan | .pinf => .pinf | .ninf => .ninf | .fin a n k => .fin a n k
+        match x with
+        | .fin _ _ _ =>
+          (match parseRepr r with
+           | some (_, ds, e) =>
+             some (.dbl x r, .dbl sx ds e, if !ds.isEmpty && Lex.dblStrTrigger ds.length e then "d" else "")
+           | none => none)
+        | _ => some (.dbl x r, .dbl sx [] 0, "")
+      | _, _ => none
+    else none
+  match target, src with
+  | some (mt, st), some (ma, sa, fl) =>
+    let m := Lex.cast ver ma mt
+    let (mtxt, mn) := match m with
+      | .ok v => (showCVal v, showCValN v)
+      | .error e => (showCErr e, "ERR")
+    let sp := match XSD.castSpec sa st with | some v => showSVal v | none => "ERR"
+    -- the string targets are affected by F10b only; the flag is irrelevant for other targets
+    let fl := if tname == "string" || tname == "untypedAtomic" then fl else fl.replace "d" ""
+    out mtxt mn sp fl
+  | _, _ => "bad-cast-request"
+
 def answer (line : String) : String :=
   let fs := fields line
   let op := field fs "op"
@@ -181,6 +288,7 @@ def answer (line : String) : String :=
         | some r => out (str r) (showNats (XSD.hexOctets r)) (showNats (XSD.b64Octets s)) ""
         | none => out "ERR" "ERR" (showNats (XSD.b64Octets s)) ""
     | none => "bad-string"
+  else if op == "cast" then castAnswer fs
   else "bad-op"
 
 def main : IO Unit := mainLoop answer
